@@ -6,11 +6,14 @@ package main
 import (
 	"bufio"
 	"bytes"
+	"encoding/json"
 	"encoding/xml"
 	"fmt"
 	"io"
 	"math/big"
 	"math/rand"
+	"os"
+	"path/filepath"
 	"regexp"
 	"sort"
 	"strings"
@@ -894,6 +897,9 @@ func (g *c17DocGen) expect() []c17ExDomain {
 
 func newC17Gen(rng *rand.Rand, style int) *c17DocGen {
 	g := &c17DocGen{rng: rng, root: newC17Node(), maxDepth: 1 + rng.Intn(5), maxItems: 2 + rng.Intn(8), entities: []int{0, 0, 5, 30}[rng.Intn(4)]}
+	if rng.Intn(7) == 0 { // wide and shallow: many lines and keys (with repeats) in one domain
+		g.maxDepth, g.maxItems = 1+rng.Intn(2), 18+rng.Intn(25)
+	}
 	switch style {
 	case 1:
 		g.utf8 = true
@@ -1142,7 +1148,7 @@ var c17FixedPaths = []string{"/a<k>", "/a/<k>", "a<k>", "a/b", "/a/b/", "//a//b/
 
 func c17Gen(tier string, rng *rand.Rand) []c17Case {
 	var cs []c17Case
-	nd, ns := 300, 220
+	nd, ns := 140, 100
 	if tier == "thorough" {
 		nd, ns = 1200, 2500
 	}
@@ -1244,6 +1250,93 @@ func c17Corpus() []c17Case {
 	return []c17Case{c1, c2, c3, c4, c5, c6, c7, c8, c9}
 }
 
+// c17GoStrSelfTest: the meaning that coq/Conf/GoStr.v (target language of the source translation) gives to the
+// functions of package strings is compared with the library itself on generated arguments
+func c17GoStrSelfTest(a Args, tier string, rng *rand.Rand, res *Result) {
+	n := 400
+	if tier == "thorough" {
+		n = 4000
+	}
+	words := []string{" ", "\t", "\n", "\r", "=", "#", "<", ">", "/", "a", "b", "ab", "==", "=>", "k", " = ", "", "x=y", ">>", "\v", "\f"}
+	mk := func(max int) string {
+		var sb strings.Builder
+		for i, l := 0, rng.Intn(max+1); i < l; i++ {
+			sb.WriteString(words[rng.Intn(len(words))])
+		}
+		return sb.String()
+	}
+	seps := []string{"=", "/", "<", ">", "==", "ab", " ", "=>", "a"}
+	cuts := []string{" \n\t", ">", " ", "", "ab", " \n\t\r", "=#"}
+	var terms []string
+	off := len(res.Cases)
+	add := func(term string, desc string) {
+		terms = append(terms, term)
+		b, _ := json.Marshal(map[string]string{"kind": "gostr-selftest", "case": desc})
+		res.Cases = append(res.Cases, b)
+	}
+	h := func(s string) string { return hx([]byte(s)) }
+	for i := 0; i < n; i++ {
+		s := mk(8)
+		switch rng.Intn(12) {
+		case 0:
+			c := cuts[rng.Intn(len(cuts))]
+			add(fmt.Sprintf("GsStr 0 %s %s 0%%Z %s", h(s), h(c), h(strings.Trim(s, c))), fmt.Sprintf("Trim(%q,%q)", s, c))
+		case 1:
+			c := cuts[rng.Intn(len(cuts))]
+			add(fmt.Sprintf("GsStr 1 %s %s 0%%Z %s", h(s), h(c), h(strings.TrimLeft(s, c))), fmt.Sprintf("TrimLeft(%q,%q)", s, c))
+		case 2:
+			c := cuts[rng.Intn(len(cuts))]
+			add(fmt.Sprintf("GsStr 2 %s %s 0%%Z %s", h(s), h(c), h(strings.TrimRight(s, c))), fmt.Sprintf("TrimRight(%q,%q)", s, c))
+		case 3:
+			add(fmt.Sprintf("GsStr 3 %s %s 0%%Z %s", h(s), h(""), h(strings.TrimSpace(s))), fmt.Sprintf("TrimSpace(%q)", s))
+		case 4:
+			p := mk(2)
+			add(fmt.Sprintf("GsStr 4 %s %s 0%%Z %s", h(s), h(p), h(strings.TrimPrefix(s, p))), fmt.Sprintf("TrimPrefix(%q,%q)", s, p))
+		case 5:
+			p := mk(2)
+			add(fmt.Sprintf("GsStr 5 %s %s 0%%Z %s", h(s), h(p), h(strings.TrimSuffix(s, p))), fmt.Sprintf("TrimSuffix(%q,%q)", s, p))
+		case 6, 7:
+			sep := seps[rng.Intn(len(seps))]
+			k := []int{-1, 0, 1, 2, 2, 2, 3, 5}[rng.Intn(8)]
+			var l [][]byte
+			for _, x := range strings.SplitN(s, sep, k) {
+				l = append(l, []byte(x))
+			}
+			add(fmt.Sprintf("GsList 0 %s %s (%d)%%Z %s", h(s), h(sep), k, hxList(l)), fmt.Sprintf("SplitN(%q,%q,%d)", s, sep, k))
+		case 8:
+			sep := seps[rng.Intn(len(seps))]
+			var l [][]byte
+			for _, x := range strings.Split(s, sep) {
+				l = append(l, []byte(x))
+			}
+			add(fmt.Sprintf("GsList 1 %s %s 0%%Z %s", h(s), h(sep), hxList(l)), fmt.Sprintf("Split(%q,%q)", s, sep))
+		case 9:
+			c := "=#/<> ab"[rng.Intn(8)]
+			add(fmt.Sprintf("GsInt 0 %s %s (%d)%%Z", h(s), h(string(c)), strings.IndexByte(s, c)), fmt.Sprintf("IndexByte(%q,%q)", s, c))
+		case 10:
+			p := mk(2)
+			add(fmt.Sprintf("GsBool 0 %s %s %s", h(s), h(p), coqBool(strings.Contains(s, p))), fmt.Sprintf("Contains(%q,%q)", s, p))
+		default:
+			p := mk(2)
+			if rng.Intn(2) == 0 {
+				add(fmt.Sprintf("GsBool 1 %s %s %s", h(s), h(p), coqBool(strings.HasPrefix(s, p))), fmt.Sprintf("HasPrefix(%q,%q)", s, p))
+			} else {
+				add(fmt.Sprintf("GsBool 2 %s %s %s", h(s), h(p), coqBool(strings.HasSuffix(s, p))), fmt.Sprintf("HasSuffix(%q,%q)", s, p))
+			}
+		}
+	}
+	name := filepath.Join(a.Out, "cases_C17_gostr.v")
+	var sb strings.Builder
+	sb.WriteString("From TarsV Require Import Base.Hex Conf.GoStr.\nFrom Coq Require Import List NArith ZArith.\nImport ListNotations.\nOpen Scope N_scope.\n")
+	sb.WriteString("Definition cases : list gs_case := [\n" + strings.Join(terms, ";\n") + "\n].\n")
+	fmt.Fprintf(&sb, "Definition M := Eval vm_compute in (gs_mismatch %d cases).\nPrint M.\nDefinition CNT := Eval vm_compute in (N.of_nat (length cases)).\nPrint CNT.\n", off)
+	if err := os.WriteFile(name, []byte(sb.String()), 0o644); err != nil {
+		fatal("write: %v", err)
+	}
+	res.CaseFiles = append(res.CaseFiles, name)
+	res.Stats["gostr_selftest_cases"] = len(terms)
+}
+
 func init() {
 	constGens = append(constGens, func() {
 		fmt.Printf("Definition c_conf_max_scan_token := %d.\n", bufio.MaxScanTokenSize)
@@ -1266,6 +1359,7 @@ func init() {
 				c17Stats.Lock()
 				res.Stats["c17"] = c17Stats.m
 				c17Stats.Unlock()
+				c17GoStrSelfTest(a, tier, rng, res)
 			},
 		}, a)
 	}
